@@ -60,15 +60,21 @@ def autodiff_errors(spec, obj, x, cond=None, tol=1e-7):
     if kind == "rqs":
         u = lv.lib()["unwrap"](obj)
         lo, hi = float(u.interval[0]), float(u.interval[1])
-        xv = float(x)
-        if xv in (lo, hi) or xv in (np.nextafter(lo, -np.inf), np.nextafter(hi, np.inf)):
-            # clip tie (or one ulp outside: kink).  The one-sided (inner) derivative at the end = the autodiff derivative one
-            # ulp inside (not a tie there; the derivative is continuous on the closed bin).
-            if xv in (lo, hi):
-                xin = float(np.nextafter(xv, hi if xv == lo else lo))
-                d_in = float(_flat_jac(obj.transform, np.asarray(xin))[0, 0])
-                if d_in > 0 and not abs(ld - np.log(d_in)) <= 1e-6 * max(1.0, abs(ld)):
-                    errs.append(f"log_det {ld!r} at the interval end {xv!r} differs from ln|inner one-sided derivative| = {float(np.log(d_in))!r}")
+        xv, yv = float(x), float(y)
+        if xv in (np.nextafter(lo, -np.inf), np.nextafter(hi, np.inf)):
+            return errs  # one ulp outside: the kink itself (identity branch), nothing to compare
+        if lo <= xv <= hi and yv in (lo, hi):
+            # the image sits exactly on an interval end: jnp.clip ties there and autodiff halves the derivative (artefact of the
+            # oracle).  Reference = the inner derivative, extrapolated linearly from two autodiff points further inside.
+            pos = np.asarray(u.x_pos, dtype=float)
+            left = yv == lo
+            w = (pos[1] - pos[0]) if left else (pos[-1] - pos[-2])
+            h = 1e-6 * w * (1 if left else -1)
+            l1 = np.log(float(_flat_jac(obj.transform, np.asarray(xv + h))[0, 0]))
+            l2 = np.log(float(_flat_jac(obj.transform, np.asarray(xv + 2 * h))[0, 0]))
+            ref = 2 * l1 - l2
+            if np.isfinite(ref) and not abs(ld - ref) <= 1e-5 * max(1.0, abs(ld)) + 4 * abs(l1 - l2) ** 2:
+                errs.append(f"log_det {ld!r} at x = {xv!r} (image on the interval end) differs from ln|inner one-sided derivative| = {float(ref)!r}")
             return errs
     J = _flat_jac(lambda v: obj.transform(v, *args), x)
     sign, ref = np.linalg.slogdet(J)
@@ -116,6 +122,15 @@ def run(ctx):
         if m == "fwdld":
             errs = autodiff_errors(spec, obj, x)
             uo.count(key, nontrivial=nontriv, tag=spec["kind"])
+        elif imp[0] != "ERR" and ld is not None and np.isfinite(ld) and np.all(np.isfinite(imp[0])):
+            # inverse law on the implementation: log-det returned with the inverse = minus the forward one at the inverse image
+            try:
+                xi = np.asarray(imp[0], dtype=float).reshape(np.shape(x))
+                yf, ldf = obj.transform_and_log_det(lv.lib()["jnp"].asarray(xi))
+                if np.isfinite(float(ldf)) and np.allclose(np.asarray(yf), x, rtol=1e-6, atol=1e-6) and not abs(float(ldf) + ld) <= 1e-6 * max(1.0, abs(ld)):
+                    errs = [f"inverse_and_log_det({np.ravel(x).tolist()}) log_det = {ld!r} is not minus the forward log_det {float(ldf)!r} at the inverse image {np.ravel(xi).tolist()}"]
+            except NotImplementedError:
+                pass
         if not agree or errs:
             u.disagreements += (not agree)
             cls = type(obj).__name__
